@@ -44,6 +44,8 @@ def replay():
                 for k, r in enumerate(recs[:-1]):
                     if isinstance(r, Evolution) and not r.cliff:
                         out.append(f"origin {origin}, target ({target}, {nf}): segment {k} is followed by a matching but is not flagged as a threshold segment")
+                if not (isinstance(last, Evolution) and last.target == target and last.nf == nf):
+                    out.append(f"origin {origin}, target ({target}, {nf}): the recipe list does not end with the segment reaching the target (last: {last})")
                 if isinstance(last, Evolution) and isinstance(lastn, Evolution) and last.cliff != lastn.cliff:
                     out.append(f"origin {origin}, target ({target}, {nf}): last segment flagged cliff={last.cliff} exactly on the matching scale but cliff={lastn.cliff} a relative 1e-6 inside the patch")
     # wiring of parts.evolve
@@ -174,6 +176,11 @@ def run(chk):
                 tag = f"C53.cliff[{nf0}->{nff},{pname}]"
                 for pt, pc, recs in chk.run_paths(tag, lambda: recipes._elements((target, nff), atlas), base + extra, fn="eko.runner.recipes:_elements", replay=rp):
                     hyp = base + extra + list(pc)
+                    last = recs[-1] if recs else None
+                    ok_last = isinstance(last, Evolution) and last.nf == nff and (last.target is target or T.lift(last.target).n == T.lift(target).n)
+                    chk.ground(f"{pt}.ends_with_the_target_segment", bool(ok_last), fn="eko.runner.recipes:_elements", replay=rp,
+                               goal="the recipe list ends with the evolution segment that reaches the requested (scale, nf) -- also when that segment has zero length: it is the carrier of the scale-variation factor",
+                               detail=f"last recipe: {last}")
                     for k, r in enumerate(recs):
                         if not isinstance(r, Evolution):
                             continue
